@@ -398,7 +398,7 @@ def verify_finalize(run):
 def _verify_finalize_body(run):
     run.verify('Circuit._finalize', cls='Circuit',
                invariants={'for blk in list(self.getblocks(btype))': inv_blocks, 'for (iname, inp) in blk.inputs.items()': inv_items,
-                           'comp[e9dbea]:for i in inp': inv_group, 'for inp in all_inputs': inv_connect},
+                           'comp[6898ad]:for i in inp': inv_group, 'for inp in all_inputs': inv_connect},
                ghost={'pos': K(Val, IntVal(-1)), 'blocks_at_second_pass': None, 'src_key': K(IntSort(), StringVal('')), 'src_j': K(IntSort(), IntVal(-1)),
                       'w_key': K(IntSort(), K(IntSort(), StringVal(''))), 'w_j': K(IntSort(), K(IntSort(), IntVal(-1)))},
                calls={'validate_output': validate_output_call, 'list': list_snapshot, 'self.getblocks': blocks_of_type,
